@@ -78,9 +78,10 @@ structure Stable (g : Table → Table) : Prop where
   fits : ∀ t n, (∀ s ∈ t.slots, s.r.size < n ∧ s.r.key.length < 256) → ∀ s ∈ (g t).slots, s.r.size < n ∧ s.r.key.length < 256
   tot : ∀ t, (keys t).Nodup → t.inuse = sumSize t.slots → t.inuse + t.garbage = t.off →
     (g t).inuse + (g t).garbage = (g t).off
+  layout : ∀ t, t.Layout → (g t).Layout
 
 theorem mapAll_wf (k : KV) (w : k.WF) (g : Table → Table) (sg : Stable g) : (k.mapAll g).WF := by
-  refine ⟨?_, ?_, ?_, ?_, ?_, ?_, ?_, ?_, ?_, ?_⟩
+  refine ⟨?_, ?_, ?_, ?_, ?_, ?_, ?_, ?_, ?_, ?_, ?_⟩
   · intro t ht hr
     simp only [mapAll, List.mem_map] at ht
     obtain ⟨x, hx, rfl⟩ := ht
@@ -124,6 +125,10 @@ theorem mapAll_wf (k : KV) (w : k.WF) (g : Table → Table) (sg : Stable g) : (k
     rw [newestFirst_mapAll, List.mem_map] at ht
     obtain ⟨x, hx, rfl⟩ := ht
     exact sg.tot x (w.nodup x hx) (w.acct x hx) (w.tot x hx)
+  · intro t ht
+    rw [newestFirst_mapAll, List.mem_map] at ht
+    obtain ⟨x, hx, rfl⟩ := ht
+    exact sg.layout x (w.layout x hx)
 
 theorem stable_deleteD (h : Nat) : Stable (fun t => t.deleteD h) where
   state t := deleteD_state t h
@@ -139,6 +144,7 @@ theorem stable_deleteD (h : Nat) : Stable (fun t => t.deleteD h) where
     rw [deleteD_slots] at hs
     exact hfit s (List.mem_filter.mp hs).1
   tot t hn ha ht := deleteD_tot t h hn ha ht
+  layout t hl := layout_deleteD t h hl
 
 /-- in-place update of the record stored under `h` (touch, UpdateTTL) -/
 def updRec (h : Nat) (f : Rec → Rec) (t : Table) : Table :=
@@ -180,6 +186,15 @@ theorem stable_updRec (h : Nat) (f : Rec → Rec) (hf : ∀ r, (f r).size = r.si
     · simp only [hf, hfk]; exact hfit x hx
     · exact hfit x hx
   tot t _ _ ht := ht
+  layout t hl := by
+    unfold Table.Layout updRec at *
+    simp only [List.pairwise_map, List.mem_map]
+    refine ⟨hl.1.imp (fun {a b} hab => ?_), ?_⟩
+    · split <;> split <;> (try simp only [hf]) <;> exact hab
+    · rintro s ⟨x, hx, rfl⟩
+      split
+      · simp only [hf]; exact hl.2 x hx
+      · exact hl.2 x hx
 
 theorem updRec_id_of_none (h : Nat) (f : Rec → Rec) (t : Table) (hn : t.find h = none) : updRec h f t = t := by
   have : ∀ s ∈ t.slots, (s.hk == h) = false := by
